@@ -33,7 +33,7 @@ CHECKS = {
    ref='DESIGN.md 3/C08'),
  'C09': dict(
    technique='timestamped history checker + forced-window schedules + sanitizers: delayed sends/cancels recorded with a monotonic clock (plain, TSan, ASan builds); scripts park the timer thread at schedule points between fire and deliver while <cancel>/destruction runs; hangs reported with gdb stack samples',
-   text='Exploration: timing charts with 4-14 delayed sends and cancels (not-early and exactly-once hard, order/cancel rules with 50 ms margin) and eight forced-window scripts (cancel, reset() and destruction while the timer thread sits in a delivery, send during a callback); outcome of a racing cancel must be 0 or 1 delivery without deadlock, crash, double delivery or sanitizer report. Charts also send to #_internal (must wake a sleeping stepper and keep due order), to targets that do not exist (error.communication, no abort on the timer thread) and execute one send id several times before cancelling it; delays come as 50ms, 50, 0.050s, .050s, '50 ms' and delayexpr, ids also through idlocation + sendidexpr; external events are only taken after a stable notice, also behind events the timer thread put into the internal queue (per-queue due order).',
+   text='Exploration: timing charts with 4-14 delayed sends and cancels (not-early and exactly-once hard, order/cancel rules with 50 ms margin) and eight forced-window scripts (cancel, reset() and destruction while the timer thread sits in a delivery, send during a callback); outcome of a racing cancel must be 0 or 1 delivery without deadlock, crash, double delivery or sanitizer report. Charts also send to #_internal (must wake a sleeping stepper and keep due order), to targets that do not exist (error.communication, no abort on the timer thread) and execute one send id several times before cancelling it; delays come as 50ms, 50, 0.050s, .050s, 50 ms (with a blank) and delayexpr, ids also through idlocation + sendidexpr; external events are only taken after a stable notice, also behind events the timer thread put into the internal queue (per-queue due order).',
    note='Real time is involved: only lower bounds and generous margins are judged. A script whose window is never reached makes the run inconclusive.',
    ref='DESIGN.md 3/C09'),
  'C10': dict(
